@@ -398,8 +398,8 @@ NOT_DECIDED = {'C10': ['names introduced while parsing (context keys, formal par
 # fall-back for the invocation functions (also decides them when a rewritten loop leaves the extractor's reach)
 BOUNDED = {'C01': [{'name': 'function-invocation-arity', 'driver': 'feelcases', 'args': ['/verif/replay/cases/C01_invocation.txt'],
                     'functions': ['eval_function_positional', 'eval_function_named', 'eval_function_definition (feel-evaluator builders.rs)'],
-                    'bound': '51 calls (42 generated, 13 of them named / positional calls of functions with typed parameters of different types, in and out of declaration order, with arguments that need the singleton conversions): user-defined functions of arity 0..3 called positionally with 0..arity arguments and by name with every non-empty subset of the parameter names (too few / missing arguments give null, '
-                             'a complete call gives the value), typed parameters coercing or nulling the argument, a missing parameter not captured from the caller, a parameter whose argument is null or coerced to null not captured from a same-named entry of the caller, and calls with surplus arguments answering without a panic (bounded duplicate of the Verus contracts)'}]}
+                    'bound': '58 calls (42 generated, 13 of them named / positional calls of functions with typed parameters of different types, in and out of declaration order, with arguments that need the singleton conversions): user-defined functions of arity 0..3 called positionally with 0..arity arguments and by name with every non-empty subset of the parameter names (too few / missing arguments give null, '
+                             'a complete call gives the value), typed parameters coercing or nulling the argument, a missing parameter not captured from the caller, a parameter whose argument is null or coerced to null not captured from a same-named entry of the caller, calls with surplus arguments answering without a panic, and user-defined functions bound to the name of a built-in function (the binding wins, positionally and by name) (bounded duplicate of the Verus contracts)'}]}
 
 _PURE = {'name': 'evaluation-leaves-the-scope-alone', 'driver': 'purity', 'args': ['/verif/replay/cases/C13_purity.txt'],
          'functions': ['build_context', 'build_filter', 'build_for / build_some / build_every and the iteration evaluators', 'eval_function_positional / named / definition', 'the parser actions that push and pop parsing contexts'],
@@ -407,6 +407,11 @@ _PURE = {'name': 'evaluation-leaves-the-scope-alone', 'driver': 'purity', 'args'
                   'nested / recursive / external, and their combinations) over a scope binding a, b, base, xs, people, f: parsing and evaluating leave the rendering of the scope unchanged, a second evaluation gives the same value, and '
                   '`a + b + base` is still 19 afterwards (bounded duplicate of the Verus contracts; stands in when a changed body leaves the extractor\'s reach)'}
 BOUNDED['C13'] = BOUNDED.get('C13', []) + [_PURE]
+_MODELPURE = {'name': 'boxed-invocations-leave-the-context-alone', 'script': 'modelpure.py', 'args': [],
+              'functions': ['build_invocation_evaluator', 'build_function_definition_evaluator', 'build_context_evaluator (model-evaluator/src/builders/mod.rs)'],
+              'bound': '7 evaluations of three models whose decision is a boxed context with two boxed invocations that bind an argument under the name of an input (`Amount`) and an entry between them that reads that name: '
+                       'the invoked expression is a function, an unknown name, a number, or a text given as input; the entries that follow see the input again'}
 BOUNDED['C01'] = BOUNDED['C01'] + [_PURE]
+BOUNDED['C13'] = BOUNDED.get('C13', []) + [_MODELPURE]
 # C16: the declared parameter type is the one the argument is coerced to, whichever way and order the argument is passed
 BOUNDED['C16'] = [b for b in BOUNDED['C01'] if b['name'] == 'function-invocation-arity']
